@@ -703,7 +703,52 @@ def _render_case(case):
     return f"Q({case['x']},{case['ua']}) {case['op']} " + (f"Q({case['y']},{case['ub']})" if case["mode"] == "qq" else repr(case["n"])) + (" [array]" if case["array"] else "")
 
 
+def case_inplace_chain(case, col=None):
+    """A quantity that has been looked at (added to itself, compared), then changed by an in-place form, then used again behaves like the result of the
+    plain form: same dimensionality, addable to / comparable with / equal to that result expressed in another unit. Exponents -3..3 of one unit on
+    both sides (what an object remembers about its units must not outlive them)."""
+    import numpy as np
+
+    ureg = env.ureg("float")
+    e1, e2, op, arr = case["e1"], case["e2"], case["op"], case["array"]
+    mk = (lambda v: np.array([v, 2 * v, 3 * v], dtype=float)) if arr else (lambda v: float(v))
+    u1, alt = case["unit"], case["alt"]
+    a = ureg.Quantity(mk(3.0), ureg.UnitsContainer({u1: e1}))
+    b = ureg.Quantity(mk(2.0), ureg.UnitsContainer({u1: e2})) if op in ("mul", "div") else e2
+    if col is not None:
+        col.case(("ic", u1, e1, e2, op, arr), True, sample=case, cls="inplace_chain:" + op)
+    plain = _run(lambda: {"mul": lambda: a * b, "div": lambda: a / b, "pow": lambda: a ** b}[op]())
+    if plain[0] != "ok":
+        raise Skip("plain_form_refused")
+    t = ureg.Quantity(mk(3.0), ureg.UnitsContainer({u1: e1}))
+    # look at the target first
+    _ = t.dimensionality
+    _ = t + t
+    _ = t == t
+    r_in = _run(lambda: {"mul": operator.imul, "div": operator.itruediv, "pow": operator.ipow}[op](t, b))
+    if r_in[0] != "ok":
+        raise Violation(f"inplace_form_differs:{op}:chain", f"{case}: plain -> {_short(plain)}, in-place raised {r_in[1]}")
+    t = r_in[1]
+    want = plain[1]
+    if dict(t.dimensionality) != dict(want.dimensionality):
+        raise Violation(f"stale_dimensionality_after_inplace:{op}", f"{case}: the target now has units {dict(t._units)} and reports dimensionality {dict(t.dimensionality)}; the plain form gives {dict(want.dimensionality)}")
+    other = want.to(ureg.UnitsContainer({alt: dict(want._units).get(u1, 0)})) if dict(want._units) else want
+    for tag, fn in (("add", lambda x: x + other), ("sub", lambda x: x - other), ("lt", lambda x: x < other), ("eq", lambda x: x == other), ("to", lambda x: x.to(other.units))):
+        r1, r2 = _run(lambda: fn(t)), _run(lambda: fn(want))
+        same = r1[0] == r2[0] and (r1[0] == "err" and r1[1] == r2[1] or r1[0] == "ok" and bool(np.all(np.isclose(np.asarray(getattr(r1[1], "magnitude", r1[1]), dtype=float), np.asarray(getattr(r2[1], "magnitude", r2[1]), dtype=float), rtol=1e-12, atol=0)))
+                                   and dict(getattr(r1[1], "_units", {})) == dict(getattr(r2[1], "_units", {})))
+        if not same:
+            raise Violation(f"inplace_then_{tag}_differs_from_plain:{op}", f"{case}: after the in-place form, {tag} with {other!r} -> {_short(r1)}; on the plain result -> {_short(r2)}")
+
+
 def run_forms(task, tier, seed, col):
+    if task["shard"] == 0:
+        for unit, alt in (("second", "millisecond"), ("meter", "inch")):
+            for e1 in (-3, -2, -1, 1, 2, 3):
+                for op, e2s in (("mul", (-3, -2, -1, 1, 2, 3)), ("div", (-3, -2, -1, 1, 2, 3)), ("pow", (-2, -1, 2, 3))):
+                    for e2 in e2s:
+                        for arr in (False, True):
+                            col.run_case(lambda c: case_inplace_chain(c, col), {"unit": unit, "alt": alt, "e1": e1, "e2": e2, "op": op, "array": arr})
     hyp_search(col, _forms_strategy(), lambda c: case_forms(c, col), max_examples=700 if tier == "quick" else 12000, seed=seed * 97 + task["shard"])
 
 
@@ -837,4 +882,6 @@ def run_task(task, tier, seed, col):
 def replay(sub, case):
     if sub == "offsetcmp":
         return case_offsetcmp(case)
+    if sub == "forms" and "e1" in case:
+        return case_inplace_chain(case)
     return {"exact": case_exact, "float": case_float, "forms": case_forms, "errors": case_errors}[sub](case)
